@@ -303,6 +303,27 @@ Definition parse_shape (sh : shape) (x : string) : res (list param) :=
       end
   end.
 
+(* ---------------------------------------------------------------- signed immediates (frame_dig i / frame_bury i: int8) *)
+(* The classes whose immediate the AVM assembler reads as a SIGNED integer.  For these the immediate is the parameter
+   form PSInt z, whatever its sign; every other class keeps the natural-number forms of parse_shape. *)
+Definition signed_imm_class (c : string) : bool := (c =? "FrameDig") || (c =? "FrameBury").
+(* _parse_int on such an immediate.  "-d1..dk" starts neither with "0x" nor with "0", so Python evaluates int(x) in
+   base 10 (leading zeros allowed: "-010" is -10, "-0x1" raises); without sign it is parse_int. *)
+Definition parse_sint (x : string) : res Z :=
+  match x with
+  | String c t =>
+      if Ascii.eqb c "-"%char then
+        match parse_base 10 t with Some n => Ok (Z.opp (Z.of_N n)) | None => Err ("ValueError: int " ++ x) end
+      else do n <- parse_int x; Ok (Z.of_N n)
+  | EmptyString => do n <- parse_int x; Ok (Z.of_N n)
+  end.
+(* immediates of a rule (class, shape): parse_shape, except that an SInt immediate of a signed class is read signed *)
+Definition parse_imm (cls : string) (sh : shape) (x : string) : res (list param) :=
+  match sh with
+  | SInt => if signed_imm_class cls then (do z <- parse_sint x; Ok [PSInt z]) else parse_shape sh x
+  | _ => parse_shape sh x
+  end.
+
 Fixpoint first_rule (line : string) (rules : list (string * (string * shape))) : option (string * string * shape) :=
   match rules with
   | [] => None
@@ -348,7 +369,7 @@ Definition parse_line (line : string) : res (option instr) :=
         let l := join " " fields in
         match first_rule l parser_rules with
         | Some (key, cls, sh) =>
-            do ps <- parse_shape sh (strip (drop (String.length key) l));
+            do ps <- parse_imm cls sh (strip (drop (String.length key) l));
             Ok (Some (of_generic cls (fix_params cls ps)))
         | None => Ok (Some (IOther "UnsupportedInstruction" [PStr l]))
         end
